@@ -176,7 +176,12 @@ pub fn budget(mode: PlanMode, thorough: bool) -> Budget {
         PlanMode::Agree => (6, 4, 200),
     };
     if thorough {
-        Budget { plans: p * 3, scheds: s * 2, pair_cap: c * 2 }
+        match mode {
+            // enumerating modes grow with the number of positions: variants x2-3 (plans > 1), schedules x2
+            PlanMode::FailEnum => Budget { plans: p * 3, scheds: s, pair_cap: c * 2 },
+            PlanMode::PanicEnum => Budget { plans: p * 3, scheds: s * 4, pair_cap: c * 2 },
+            _ => Budget { plans: p * 6, scheds: s * 4, pair_cap: c * 2 },
+        }
     } else {
         Budget { plans: p, scheds: s, pair_cap: c }
     }
